@@ -38,7 +38,8 @@
  *   an implicit final step "end" resets both queues.
  * output: one line; per step
  *   <result> q0:<length>,<bytes_in>,<bytes_out>,<tempdir_idx>,<readable bytes>,<crc32>,<layout> q1:... t:<temp files> fd:<open fds>
- *   steps joined by " | ".  layout = chunks joined by '.', each M|F|T (mem,
+ *   steps joined by " | "; the final step also reports ws:/ms: = number of
+ *   scheduled write / mkostemp results left unused.  layout = chunks joined by '.', each M|F|T (mem,
  *   file, temp file) + remaining length + '+' if the chunk holds a descriptor.
  */
 #include "first.h"
@@ -474,6 +475,12 @@ int main(void) {
         chunkqueue_reset(cq[1]);
         fputs("end", stdout);
         dump_state(cq, ndirs);
+        {   /* scheduled syscall results that were never asked for */
+            int wl = 0, ml = 0;
+            if (ws_p && *ws_p && *ws_p != '-') { wl = 1; for (const char *p = ws_p; *p; ++p) if (*p == ',') ++wl; }
+            if (ms_p && *ms_p && *ms_p != '-') ml = (int)strlen(ms_p);
+            printf(" ws:%d ms:%d", wl, ml);
+        }
         fputc('\n', stdout);
         fflush(stdout);   /* keeps crash attribution exact: one line out per line in */
 
